@@ -1,6 +1,7 @@
 (* C11 - File operations.  Only statements, each closed by [exact] of a lemma
    proved in Proofs/Fs*.v, with Print Assumptions beneath. *)
-From UV Require Import Lib.Base Model.Fs Proofs.FsProofs Proofs.FsRoutesProofs Proofs.FsLedgerProofs.
+From UV Require Import Lib.Base Model.Fs Proofs.FsProofs Proofs.FsRoutesProofs Proofs.FsLedgerProofs
+  Proofs.FsPoolProofs.
 
 (* ================= (b) buffer arithmetic ================= *)
 
@@ -253,3 +254,12 @@ Theorem C11_cleanup_any_state :
   forall q h, let '(q1, h1) := req_cleanup q h in req_cleanup q1 h1 = (q1, h1).
 Proof. exact cleanup_idempotent. Qed.
 Print Assumptions C11_cleanup_any_state.
+
+(* ================= (d) the pool behind the pool route ================= *)
+
+(* For every value of UV_THREADPOOL_SIZE (any byte string, or unset) the
+   pool route has between 1 and 1024 worker threads, so a queued request is
+   always picked up. *)
+Theorem C11_pool_size_bounds : forall v : option (list N), (1 <= pool_size v <= 1024)%Z.
+Proof. exact pool_size_bounds. Qed.
+Print Assumptions C11_pool_size_bounds.
